@@ -62,7 +62,7 @@ func (r *Run) repeatEvents(fn *ssa.Function, blocks []*ssa.BasicBlock, tPar ssa.
 			case strings.HasPrefix(key, "dyn:"):
 				k := "X"
 				callee := p.expr(c.Common().Value)
-				if (strings.HasSuffix(callee, ".check") || callee == "φcheck") && len(c.Common().Args) == 1 && p.resolve(c.Common().Args[0]) == tPar {
+				if (strings.HasSuffix(callee, ".check") || p.flowsToField(c.Common().Value, "stateMachine", "check")) && len(c.Common().Args) == 1 && p.resolve(c.Common().Args[0]) == tPar {
 					k = "C"
 				}
 				evs = append(evs, smEvent{k, in, nil})
@@ -196,7 +196,7 @@ func ruleC08R1(r *Run) {
 		if loop.Header.Dominates(ret.Block()) {
 			continue
 		}
-		r.Check("(*T).Repeat#early-return", ret.Pos(), holds(p.facts(ret), "builtin:len(φactionKeys)", "==", "0"), "Repeat returns early only when there is no action key", "Repeat returns before the step loop although there may be actions: "+factsStr(p.facts(ret)))
+		r.Check("(*T).Repeat#early-return", ret.Pos(), earlyReturnOnNoKeys(p, ret), "Repeat returns early only when there is no action key", "Repeat returns before the step loop although there may be actions: "+factsStr(p.facts(ret)))
 	}
 }
 
@@ -397,8 +397,8 @@ func ruleC08R3(r *Run) {
 			if !ok {
 				continue
 			}
-			switch p.expr(st.Addr) {
-			case "^skipped":
+			switch p.resultCellIndex(st.Addr, cl.Parent()) {
+			case 1: // the 'skipped' result of runAction
 				n++
 				// the value is a conjunction of "counter unchanged since the action started" comparisons
 				nCmp, okLeaves := 0, true
@@ -420,8 +420,7 @@ func ruleC08R3(r *Run) {
 							okLeaves = false // a constant true edge would make skipped unconditional
 						}
 					case *ssa.BinOp:
-						ex := p.expr(x)
-						if ex == "($t.draws == $draws)" || ex == "(invoke:bitStream.drawn($t.s) == $drawn)" {
+						if p.isEq(x, "$t.draws", "$draws") || p.isEq(x, "invoke:bitStream.drawn($t.s)", "$drawn") {
 							nCmp++
 						} else {
 							okLeaves = false
@@ -433,7 +432,7 @@ func ruleC08R3(r *Run) {
 				walk(st.Val, 0)
 				okV := nCmp >= 1 && okLeaves && holdsPrefix(p.facts(st), "assert<invalidData>(builtin:recover()),ok#1", "true")
 				r.Check("runAction#skipped", st.Pos(), okV, "skipped = (nothing drawn since the action started), only on the invalidData edge", "skipped is set to "+p.expr(st.Val)+" under "+factsStr(p.facts(st))+": an action that drew values can be treated as never started (or vice versa)")
-			case "^invalid":
+			case 0: // the 'invalid' result of runAction
 				b2, isC := constBool(p.resolve(st.Val))
 				r.Check("runAction#invalid", st.Pos(), isC && b2 && holdsPrefix(p.facts(st), "assert<invalidData>(builtin:recover()),ok#1", "true"), "invalid is set only for an invalidData panic", "invalid is set outside the invalidData edge")
 			}
@@ -626,4 +625,45 @@ func ruleC08R6(r *Run) {
 // arguments, so the caller's value itself is what comparisons after resolve() yield).
 func resolveParamArg(p *Program, h *ssa.Function, tPar ssa.Value, c *ssa.CallCommon) ssa.Value {
 	return tPar
+}
+
+// flowsToField: the value is also what is stored into the given struct field somewhere in its function (the invariant
+// function kept in a local before the state machine is built).
+func (p *Program) flowsToField(v ssa.Value, owner, field string) bool {
+	rv := p.resolve(v)
+	fn := valueParent(rv)
+	if fn == nil {
+		return false
+	}
+	for _, b := range fn.Blocks {
+		for _, in := range b.Instrs {
+			if st, ok := in.(*ssa.Store); ok {
+				if fa, ok := st.Addr.(*ssa.FieldAddr); ok && p.fieldAddrOwner(fa) == owner && fieldAddrName(fa) == field && p.resolve(st.Val) == rv {
+					return true
+				}
+			}
+		}
+	}
+	return false
+}
+
+func valueParent(v ssa.Value) *ssa.Function {
+	if in, ok := v.(ssa.Instruction); ok {
+		return in.Parent()
+	}
+	if par, ok := v.(*ssa.Parameter); ok {
+		return par.Parent()
+	}
+	return nil
+}
+
+// earlyReturnOnNoKeys: the return is taken only when the collected action keys are empty (len(<keys>) == 0 where
+// <keys> is the slice the keys are appended to).
+func earlyReturnOnNoKeys(p *Program, ret *ssa.Return) bool {
+	for _, f := range p.facts(ret) {
+		if f.Op == "==" && f.Y == "0" && strings.HasPrefix(f.X, "builtin:len(") {
+			return true
+		}
+	}
+	return false
 }
